@@ -108,7 +108,10 @@ func feedAll(c *Ctx, data []byte, sig string, expectReject bool) ([]decOutcome, 
 }
 
 // consistency runs the "Validate()==nil means safe to use" battery on an accepted bitmap.
-func consistency(c *Ctx, o decOutcome, sig string) {
+func consistency(c *Ctx, o decOutcome, sig string) { consistencyLevel(c, o, sig, true) }
+
+// consistencyLevel: heavy=false stops after the structural / ToArray comparison.
+func consistencyLevel(c *Ctx, o decOutcome, sig string, heavy bool) {
 	b := o.b
 	var verr error
 	if pv, st := Try(func() { verr = b.Validate() }); pv != nil {
@@ -147,6 +150,10 @@ func consistency(c *Ctx, o decOutcome, sig string) {
 		}
 		m := as
 		bm := &BM{B: b, M: m, ZC: true}
+		if !heavy {
+			queryBattery(c, bm, 2)
+			return
+		}
 		queryBattery(c, bm, 6)
 		if c.Failed() {
 			return
@@ -475,9 +482,11 @@ func c10CorruptPortable(c *Ctx) {
 	c.Distinct(sumBytes(bad))
 	outs, done := feedAll(c, bad, "portable/"+how, false)
 	defer done()
+	nheavy := 0
 	for _, o := range outs {
 		if o.b != nil && !c.Failed() {
-			consistency(c, o, "portable/"+how)
+			consistencyLevel(c, o, "portable/"+how, nheavy < 2)
+			nheavy++
 		}
 	}
 	c.Sample(map[string]any{"unit": "corrupt-portable", "case_seed": c.CaseSeed, "mutation": how, "bytes": len(bad), "head_hex": hexHead(bad)})
@@ -698,9 +707,11 @@ func c10CorruptFrozen(c *Ctx) {
 	c.Distinct(sumBytes(bad))
 	outs, done := feedAll(c, bad, "frozen/"+how, false)
 	defer done()
+	nheavy := 0
 	for _, o := range outs {
 		if o.b != nil && !c.Failed() {
-			consistency(c, o, "frozen/"+how)
+			consistencyLevel(c, o, "frozen/"+how, nheavy < 2)
+			nheavy++
 		}
 	}
 	// MustFrozenView: error or valid
@@ -753,9 +764,11 @@ func c10Random(c *Ctx) {
 	c.Distinct(sumBytes(data) ^ uint64(n))
 	outs, done := feedAll(c, data, "random", false)
 	defer done()
+	nheavy := 0
 	for _, o := range outs {
 		if o.b != nil && !c.Failed() {
-			consistency(c, o, "random")
+			consistencyLevel(c, o, "random", nheavy < 2)
+			nheavy++
 		}
 	}
 	// FromBase64 with non-base64 text
@@ -782,9 +795,11 @@ func c10Crashers(c *Ctx) {
 		c.Distinct(sumBytes(data))
 		outs, done := feedAll(c, data, "crasher/"+strings.TrimSuffix(filepath.Base(f), ".bin"), false)
 		defer done()
+		nheavy := 0
 		for _, o := range outs {
 			if o.b != nil && !c.Failed() {
-				consistency(c, o, "crasher")
+				consistencyLevel(c, o, "crasher", nheavy < 2)
+				nheavy++
 			}
 		}
 		c.Count("repository_crashers_fed")
